@@ -891,12 +891,65 @@ def c04(ctx):
             ops += [('push', 1, 0, wrap(b'ab')), ('probe', 1)]
             cases.append((name, ops)); note_case(res, name, ops)
     run_regions(ctx, res, cases, lambda e, ops, obs, mo=None: ref_oracle(e, ops, obs, (), mo), 'values')
+    strspan_cases(ctx, res)
     found, fails = src_inventory_c04()
     res.extra['source_inventory'] = found
     for f in fails:
         res.failures.append({'kind': 'source-inventory', 'what': f, 'known': None,
                              'note': 'the unchecked UTF-8 conversion is reachable through a write path that does not guarantee UTF-8'})
     return res
+
+def strspan_cases(ctx, res):
+    """String boundaries at and around byte 2^32 (and 2^31) in the crate's own string regions, reached through a
+    user-defined Storage<u8> whose first item is a virtual prefix (harness/src/strspan.rs).  Bounded-exhaustive: a
+    prefix of 2^32-6 .. 2^32+1 (or 2^31-2, or none) bytes, then every sequence of L strings over
+    {"", "a", "e-acute", "euro", "emoji", "ab"}, optionally cleared and refilled.  Implementation-side oracle: every
+    &str read back is byte-identical to the pushed one (hence valid UTF-8), indices of the consecutive-pair kinds
+    count from 0."""
+    import itertools
+    L = 3 if not ctx.thorough else 4
+    strs = ['', 'a', '\u00e9', '\u20ac', '\U0001F600', 'ab']
+    enc = {x: 's' + x.encode('utf-8').hex() for x in strs}
+    gaps = [None, 2 ** 31 - 2] + [2 ** 32 + d for d in range(-6, 2)]
+    kinds = ['str', 'con_str_iopt', 'con_str_ilist', 'con_str_vec', 'str_con_iopt', 'str_con_ilist', 'fs_iopt', 'fs_ilist']
+    hist = []
+    for g in gaps:
+        pre = [] if g is None else ['g%x' % g]
+        for q in itertools.product(strs, repeat=L):
+            for k in kinds: hist.append((k, pre + [enc[x] for x in q], None))
+        # cleared and refilled with another prefix
+        for q in itertools.product(strs[1:5], repeat=2):
+            for k in kinds: hist.append((k, pre + [enc[q[0]], 'c', 'g%x' % (2 ** 32 - 1), enc[q[1]], enc['ab']], None))
+    for prof in PROFILES:
+        obs = lib.run_impl('strspan', [(k, q) for k, q, _ in hist], prof)
+        for (k, q, _), io in zip(hist, obs):
+            res.evaluations += 1
+            res.per_entry['strspan:' + k + ' (impl only)'] = res.per_entry.get('strspan:' + k + ' (impl only)', 0) + 1
+            io = [g_[0] if g_ else '' for g_ in io]
+            f = None; want = []; pos = 0
+            for t, op in enumerate(q):
+                if t >= len(io): f = f'op {t}: no observation'; break
+                if op == 'c':
+                    want = []; pos = 0
+                    if io[t] != 'N': f = f'op {t} (clear): observed {io[t]}'; break
+                    continue
+                if io[t] == '[62]': f = f'op {t} ({op}): push panicked'; break
+                if k != 'str' and io[t] != '%x' % pos: f = f'op {t} ({op}): push number {pos} since the last reset returned index {io[t]}'; break
+                pos += 1
+                if op[0] == 's': want.append(list(bytes.fromhex(op[1:])))
+            if f is None:
+                if len(io) != len(q) + 1: f = f'no final reads: {io}'
+                else:
+                    got = gen.parse(io[-1])
+                    if got != [('S', w) for w in want]:
+                        f = f'strings read back {io[-1]}, pushed {[bytes(w).decode("utf-8") for w in want]} after a prefix of {q[0] if q and q[0][0] == "g" else "0"} bytes'
+            if f:
+                res.failures.append({'kind': 'oracle', 'entry': 'strspan/' + k,
+                                     'rust_type': 'string region over OwnedRegion<u8, Sparse> (user-defined storage, harness/src/strspan.rs)',
+                                     'profile': prof, 'history': q, 'what': f, 'observed': io, 'known': None})
+        res.per_profile[prof] = res.per_profile.get(prof, 0) + len(hist)
+    res.extra['strspan_exhaustive'] = (f'{len(hist)} histories: virtual prefix in {{none, 2^31-2, 2^32-6..2^32+1}}, all sequences of {L} strings over 6 '
+                                       f'(1-4 byte scalars, empty), clear+refill variants, {len(kinds)} string-region arrangements')
 
 # ------------------------------------------------------------------ C16
 def c16(ctx):
